@@ -52,8 +52,13 @@ func main() {
 
 func run(col *core.Collector, prop, tier, variant string, seed uint64, shard, nshards int, replayDir, out string) {
 	switch prop {
-	case "C01", "C03", "C07", "C10", "C11", "C12":
+	case "C01", "C03", "C07", "C10", "C12":
 		seq.RunProperty(col, prop, tier, seed, shard, nshards, replayDir)
+	case "C11":
+		if variant == "plain" {
+			seq.RunProperty(col, prop, tier, seed, shard, nshards, replayDir)
+		}
+		conc.RunC11(col, tier, variant, seed, shard, nshards, replayDir, out)
 	case "C13":
 		seq.RunProperty(col, prop, tier, seed, shard, nshards, replayDir)
 		seq.RunSched(col, tier, seed, shard, nshards, replayDir)
